@@ -1185,3 +1185,319 @@ def d_echo( ctx ):
     else:
         res.bad( usrc, ur, 'UCMM.request return', 'must return the proceed flag' )
     return res
+
+
+# ---------------------------------------------------------------------------------------- C07: A-OFFSETS, P-ORDER, P-EACH, P-CLOSURE
+
+def linear( e, atoms=None ):
+    """normalise an integer expression to { atom text: coefficient, '': constant } (atoms = maximal non-arithmetic sub-expressions)"""
+    if isinstance( e, ast.BinOp ) and isinstance( e.op, ( ast.Add, ast.Sub )):
+        a, b = linear( e.left ), linear( e.right )
+        if a is None or b is None:
+            return None
+        sign = 1 if isinstance( e.op, ast.Add ) else -1
+        out = dict( a )
+        for k, v in b.items():
+            out[k] = out.get( k, 0 ) + sign * v
+        return { k: v for k, v in out.items() if v != 0 or k == '' }
+    if isinstance( e, ast.BinOp ) and isinstance( e.op, ast.Mult ):
+        a, b = linear( e.left ), linear( e.right )
+        if a is None or b is None:
+            return None
+        if set( a ) <= { '' }:
+            c = a.get( '', 0 ); return { k: c * v for k, v in b.items() if c * v != 0 or k == '' }
+        if set( b ) <= { '' }:
+            c = b.get( '', 0 ); return { k: c * v for k, v in a.items() if c * v != 0 or k == '' }
+        return None
+    if isinstance( e, ast.UnaryOp ) and isinstance( e.op, ast.USub ):
+        a = linear( e.operand )
+        return None if a is None else { k: -v for k, v in a.items() }
+    v = try_fold( e, default=NoFold )
+    if v is not NoFold and isinstance( v, int ):
+        return { '': v }
+    return { txt( e ): 1 }
+
+
+def _canon( lin ):
+    return tuple( sorted(( k, v ) for k, v in lin.items() if v != 0 ))
+
+
+@rule( 'A-OFFSETS', props=( 'C07', 'C01', 'C14' ), floor=4 )
+def a_offsets( ctx ):
+    """Multiple Service Packet: all four offset-header expressions normalise to 2 + 2*N (+ running offset)"""
+    res = Result( 'A-OFFSETS' )
+    src = ctx.src( DEVICE )
+    pr = src.get( 'Message_Router.produce' )
+    n = 0
+    for f in ast.walk( pr ):
+        if isinstance( f, ast.For ) and isinstance( f.target, ast.Name ) and dotted( f.iter ) == 'offsets':
+            v = f.target.id
+            for c in ast.walk( f ):
+                if is_call_to( c, 'UINT.produce' ) and c.args:
+                    n += 1
+                    lin = linear( c.args[0] )
+                    want = { '': 2, 'len(offsets)': 2, v: 1 }
+                    if lin is not None and _canon( lin ) == _canon( want ):
+                        res.ok( src, c, 'produced offset = %s = 2 + 2*N + running offset' % norm_text( c.args[0] ))
+                    else:
+                        res.bad( src, c, c.args[0], 'each offset in the table must be 2 + 2*N + (sum of the preceding message lengths): the first embedded message starts right after the count and the N offsets' )
+    if n != 2:
+        raise AnalysisError( 'Message_Router.produce: expected 2 offset-table emitters, found %d' % n )
+    # count field = len( offsets )
+    cnts = [ c for c in ast.walk( pr ) if is_call_to( c, 'UINT.produce' ) and c.args and pmatch( c.args[0], 'len( offsets )' ) ]
+    if len( cnts ) == 2:
+        res.ok( src, cnts[0], 'count field = len( offsets ) in request and reply' )
+    else:
+        res.bad( src, pr, 'Message_Router.produce count', 'the count field must be the number of offsets (= number of embedded messages)' )
+    # the parser closure
+    cl = src.get( 'state_multiple_service.terminate.closure' )
+    for name, idx in (( 'beg', 'offsets[oi]' ), ( 'end', 'offsets[oi+1]' )):
+        hits = [ s for s in ast.walk( cl ) if isinstance( s, ast.Assign ) and dotted( s.targets[0] ) == name and 'offsets' in names_in( s.value ) and isinstance( s.value, ast.BinOp ) ]
+        if len( hits ) != 1:
+            raise AnalysisError( 'closure: %s computation not found' % name )
+        lin = linear( hits[0].value )
+        want = { idx: 1, 'len(offsets)': -2, '': -2 }
+        if lin is not None and _canon( lin ) == _canon( want ):
+            res.ok( src, hits[0], 'parsed %s = %s = offset - ( 2 + 2*N )' % ( name, norm_text( hits[0].value )))
+        else:
+            res.bad( src, hits[0], hits[0], 'slice bound must be offset - ( 2 + 2*N ): offsets are relative to the start of the count field' )
+    # last member to the end; slice and append in order
+    last = [ s for s in ast.walk( cl ) if isinstance( s, ast.Assign ) and dotted( s.targets[0] ) == 'end' and pmatch( s.value, 'len( reqdata )' ) ]
+    loop = [ f for f in ast.walk( cl ) if isinstance( f, ast.For ) and pmatch( f.iter, 'range( len( offsets ))' ) ]
+    sl = pfind( cl, 'req.input = reqdata[beg:end]' )
+    app = pfind( cl, 'request.append( req )' )
+    if last and loop and sl and app:
+        res.ok( src, loop[0], 'members sliced reqdata[beg:end] between consecutive offsets (last to the end), appended in offset order' )
+    else:
+        res.bad( src, cl, 'closure member slicing', 'each member must be reqdata[beg:end] between consecutive offsets, the last one to the end, appended in order' )
+    return res
+
+
+def _multiple_loops( pr ):
+    return [ f for f in ast.walk( pr ) if isinstance( f, ast.For ) and 'multiple' in attrs_in( f.iter ) ]
+
+
+@rule( 'P-ORDER', props=( 'C07', ), floor=2 )
+def p_order( ctx ):
+    """Multiple Service produce loops: iteration order and accumulation direction pair up (reversed with prepend, forward with append)"""
+    res = Result( 'P-ORDER' )
+    src = ctx.src( DEVICE )
+    pr = src.get( 'Message_Router.produce' )
+    loops = _multiple_loops( pr )
+    if len( loops ) != 2:
+        raise AnalysisError( 'Message_Router.produce: expected two member loops, found %d' % len( loops ))
+    for f in loops:
+        it = f.iter
+        if is_call_to( it, 'reversed' ) and it.args and txt( it.args[0] ) == 'data.multiple.request':
+            d_iter = 'rev'
+        elif txt( it ) == 'data.multiple.request':
+            d_iter = 'fwd'
+        else:
+            res.bad( src, f, it, 'members must be produced from data.multiple.request itself (not sorted/sliced/filtered)' ); continue
+        d_data = d_off = None
+        new = None
+        for s in f.body:
+            if isinstance( s, ast.Assign ) and isinstance( s.targets[0], ast.Name ):
+                t = s.targets[0].id
+                m = pmatch( s.value, '_new + %s' % t )
+                if m and isinstance( m['_new'], ast.Name ):
+                    d_data = 'prepend'; new = m['_new'].id; acc = t
+                m = pmatch( s.value, '%s + _new' % t )
+                if m and isinstance( m['_new'], ast.Name ):
+                    d_data = 'append'; new = m['_new'].id; acc = t
+                m = pmatch( s.value, '[ 0 ] + [ _o + len( _new ) for _o in %s ]' % t )
+                if m:
+                    d_off = ( 'prepend', dotted( m['_new'] ))
+                m = pmatch( s.value, '%s + [ len( _acc ) ]' % t )
+                if m:
+                    d_off = ( 'append', dotted( m['_acc'] ))
+            if isinstance( s, ast.AugAssign ) and isinstance( s.op, ast.Add ) and isinstance( s.target, ast.Name ) and isinstance( s.value, ast.Name ):
+                d_data = 'append'; new = s.value.id; acc = s.target.id
+        if d_data is None or d_off is None:
+            raise AnalysisError( 'Message_Router.produce: accumulation idiom of a member loop not recognised' )
+        good = ( d_iter == 'rev' and d_data == 'prepend' and d_off == ( 'prepend', new )) \
+            or ( d_iter == 'fwd' and d_data == 'append' and d_off[0] == 'append' and d_off[1] == acc )
+        if good:
+            res.ok( src, f, 'members iterated %s, data %s, offsets %s: original order preserved' % ( d_iter, d_data, d_off[0] ))
+        else:
+            res.bad( src, f, 'iteration %s with data %s / offsets %s' % ( d_iter, d_data, d_off ),
+                     'iteration order and accumulation direction do not pair up: members (or their offsets) come out in reversed order' )
+    return res
+
+
+@rule( 'P-EACH', props=( 'C07', ), floor=2 )
+def p_each( ctx ):
+    """Message_Router.request: every member of the bundle is dispatched exactly once, in order, unconditionally"""
+    res = Result( 'P-EACH' )
+    src = ctx.src( DEVICE )
+    fn = src.get( 'Message_Router.request' )
+    loops = [ f for f in walk_no_nested( fn ) if isinstance( f, ast.For ) and 'multiple' in attrs_in( f.iter ) ]
+    if len( loops ) != 1:
+        res.bad( src, fn, 'Message_Router.request', 'no loop over data.multiple.request: bundled requests are not executed' )
+        return res
+    f = loops[0]
+    if txt( f.iter ) == 'data.multiple.request' and isinstance( f.target, ast.Name ):
+        res.ok( src, f, 'iterates data.multiple.request itself, in order' )
+    else:
+        res.bad( src, f, f.iter, 'the bundle must be executed in request order over data.multiple.request itself' )
+    var = f.target.id if isinstance( f.target, ast.Name ) else '?'
+    cfg = CFG( fn )
+    h = cfg.node_of( f )
+    first = [ m for m, l in cfg.succ[h] if l == 'true' ]
+    backs = [ p for p, l in cfg.pred[h] if l in ( 'back', 'continue' ) ]
+    calls = [ n for n in cfg.nodes if n.kind == 'stmt' and n.stmt is not None and any(
+        isinstance( c, ast.Call ) and isinstance( c.func, ast.Attribute ) and c.func.attr == 'request' and c.args and dotted( c.args[0] ) == var
+        for c in ast.walk( n.stmt )) ]
+    cnt = cfg.effect_counts( first[0], calls, backs, cut_back=True, skip_labels=( 'exc', )) if first and backs else {}
+    if cnt and all( v == ( 1, 1 ) for v in cnt.values() ):
+        res.ok( src, f, 'target.request( %s ) exactly once per member' % var )
+    else:
+        res.bad( src, f, 'member dispatch count per iteration %s' % sorted( set( cnt.values() )),
+                 'every bundled request must be executed exactly once (none skipped, none repeated)' )
+    # same target for all members, addr forwarded
+    for c in calls:
+        call = [ x for x in ast.walk( c.stmt ) if isinstance( x, ast.Call ) and isinstance( x.func, ast.Attribute ) and x.func.attr == 'request' ][0]
+        if dotted( call.func.value ) == 'target' and any( k.arg == 'addr' and dotted( k.value ) == 'addr' for k in call.keywords ):
+            res.ok( src, call, 'member dispatched to the routed target with the session addr' )
+        else:
+            res.bad( src, call, call, 'members must be dispatched to the routed target object with the session address' )
+    # the loop body never touches the bundle's own status
+    st = [ s for s in ast.walk( f ) if isinstance( s, ast.Assign ) and any( dotted( t ) == 'data.status' for t in s.targets ) ]
+    if st:
+        res.bad( src, st[0], st[0], 'a member must not alter the bundle\'s own status inside the loop' )
+    return res
+
+
+@rule( 'P-CLOSURE', props=( 'C07', 'C09' ), floor=2 )
+def p_closure( ctx ):
+    """state_multiple_service.terminate: on the no-exception path the member-parsing closure is either posted or run, exactly once"""
+    res = Result( 'P-CLOSURE' )
+    src = ctx.src( DEVICE )
+    fn = src.get( 'state_multiple_service.terminate' )
+    cfg = CFG( fn )
+    post = [ n for n in cfg.nodes if n.kind == 'stmt' and n.stmt is not None and pfind( n.stmt, '_p.post_process_closure( closure )' ) ]
+    run = [ n for n in cfg.nodes if n.kind == 'stmt' and n.stmt is not None and pmatch( n.stmt, 'closure()' ) ]
+    if not post or not run:
+        res.bad( src, fn, 'terminate', 'the closure must be posted when the target parser is locked, else run immediately' )
+        return res
+    cnt = cfg.effect_counts( cfg.entry, post + run, [ cfg.exit ], cut_back=True, skip_labels=( 'exc', ))
+    # the early `if exception: return` exit performs 0; every other normal exit performs exactly 1
+    rets = [ n for n in cfg.nodes if n.kind == 'stmt' and isinstance( n.stmt, ast.Return ) ]
+    early = [ r for r in rets if isinstance( src.parent.get( r.stmt ), ast.If ) and pmatch( src.parent.get( r.stmt ).test, 'exception' ) ]
+    cnt2 = cfg.effect_counts( cfg.entry, post + run, [ cfg.exit ], cut_back=True, skip_labels=( 'exc', ), avoid=early )
+    if cnt2.get( cfg.exit ) == ( 1, 1 ):
+        res.ok( src, fn, 'no-exception path: closure posted or run exactly once' )
+    else:
+        res.bad( src, fn, 'closure executions on the normal path: %s' % ( cnt2.get( cfg.exit ), ), 'members must be parsed exactly once (posted xor run)' )
+    # guard: posted iff the target parser's lock is held
+    t = [ n for n in cfg.nodes if n.kind == 'test' and pmatch( n.expr, 'target.parser.lock.locked()' ) ]
+    if t and all( cfg.must_pass( cfg.entry, p, [ m for m, l in cfg.succ[t[0]] if l == 'true' ], correlated=False ) for p in post ) \
+       and all( cfg.must_pass( cfg.entry, r, [ m for m, l in cfg.succ[t[0]] if l == 'false' ], correlated=False ) for r in run ):
+        res.ok( src, t[0].stmt, 'posted when target.parser.lock.locked(), run directly otherwise' )
+    else:
+        res.bad( src, fn, 'closure dispatch', 'post when the target parser lock is held (re-entrancy), run directly otherwise' )
+    # the closure parses with the target's parser under its lock and asserts terminal
+    cl = src.get( 'state_multiple_service.terminate.closure' )
+    w = [ x for x in ast.walk( cl ) if isinstance( x, ast.With ) and txt( x.items[0].context_expr ) == 'target.parser' ]
+    asserts = [ a for a in ast.walk( cl ) if isinstance( a, ast.Assert ) and pmatch( a.test, 'machine.terminal' ) ]
+    if w and asserts:
+        res.ok( src, w[0], 'each member parsed with target.parser (locked) and asserted terminal' )
+    else:
+        res.bad( src, cl, 'closure', 'each member must be parsed under `with target.parser` and the parse asserted terminal' )
+    return res
+
+
+# ---------------------------------------------------------------------------------------- C08: E-CONTAIN
+
+FATAL_CALLS = ( 'sys.exit', 'os._exit', 'os.kill', 'os.abort', 'exit', 'quit', '_thread.interrupt_main', 'thread.interrupt_main', 'signal.raise_signal', 'os.killpg' )
+
+
+@rule( 'E-CONTAIN', props=( 'C08', ), floor=6 )
+def e_contain( ctx ):
+    """a failing connection ends only itself: finally closes the socket and drops its stats entry; the runner swallows the exception; nothing reachable exits the process"""
+    res = Result( 'E-CONTAIN' )
+    src = ctx.src( MAIN )
+    fn = src.get( 'enip_srv_tcp' )
+    fins = [ t for t in ast.walk( fn ) if isinstance( t, ast.Try ) and t.finalbody ]
+    outer = None
+    for t in fins:
+        if any( isinstance( w, ast.While ) for w in ast.walk( t )):
+            outer = t
+    if outer is None:
+        res.bad( src, fn, 'enip_srv_tcp', 'the connection loop is not protected by a finally: socket and stats entry leak on failure' )
+    else:
+        closes = [ s for s in outer.finalbody if pmatch( s, 'conn.close()' ) ]
+        pops = [ s for s in outer.finalbody if pmatch( s, 'connections.pop( connkey, None )' ) or pmatch( s, 'del connections[connkey]' ) ]
+        if closes:
+            res.ok( src, closes[0], 'finally: conn.close() on every exit' )
+        else:
+            res.bad( src, outer, 'enip_srv_tcp finally', 'the socket must be closed on every exit of the connection handler' )
+        if pops:
+            res.ok( src, pops[0], 'finally: connections entry removed' )
+        else:
+            res.bad( src, outer, 'enip_srv_tcp finally', 'the connection\'s stats entry must be removed on every exit' )
+        # statements of the finally before conn.close() must not be able to skip it: they are logging or wrapped in try
+        if closes:
+            idx = outer.finalbody.index( closes[0] )
+            risky = [ s for s in outer.finalbody[:idx] if not ( isinstance( s, ast.Try ) or pmatch( s, 'connections.pop( connkey, None )' )
+                                                               or ( isinstance( s, ast.Expr ) and call_name( s.value ).startswith( 'log.' ))) ]
+            if risky:
+                res.bad( src, risky[0], risky[0], 'a statement that may raise precedes conn.close() in the finally' )
+    # the per-connection exception handler re-raises into the runner, which swallows it
+    nsrc = ctx.src( 'server/network.py' )
+    rn = nsrc.get( 'server_runner.run' )
+    tr = [ t for t in rn.body if isinstance( t, ast.Try ) ]
+    good = False
+    if tr:
+        hs = [ h for h in tr[0].handlers if h.type is not None and dotted( h.type ) in ( 'Exception', 'BaseException' ) ]
+        if hs and not any( isinstance( s, ast.Raise ) for s in ast.walk( hs[0] )):
+            good = True
+    if good:
+        res.ok( nsrc, rn, 'server_runner.run: except Exception, logged, not re-raised' )
+    else:
+        res.bad( nsrc, rn, 'server_runner.run', 'the per-connection thread must catch and log every Exception of its target without re-raising' )
+    # the runner classes used for connections derive from server_runner
+    for cname in ( 'server_thread', ):
+        cd = nsrc.get( cname )
+        bases = [ dotted( b ) for b in cd.bases ]
+        if bases and bases[0] == 'server_runner':
+            res.ok( nsrc, cd, 'class %s( %s ): run() of server_runner wraps the target' % ( cname, ', '.join( bases )))
+        else:
+            res.bad( nsrc, cd, 'class %s( %s )' % ( cname, ', '.join( map( str, bases ))), 'server_runner must come first in the bases so that its run() wraps the target' )
+    # daemon thread per connection
+    sm = nsrc.get( 'server_main' )
+    if pfind( sm, 'thrd.daemon = True' ) and pfind( sm, 'thrd.start()' ):
+        res.ok( nsrc, sm, 'one daemon thread per accepted connection' )
+    else:
+        res.bad( nsrc, sm, 'server_main.thread_start', 'each connection must be served by its own started thread' )
+    # zero-count: nothing in the request-processing modules terminates the process
+    scanned = 0
+    hits = 0
+    for rel, fns in (( 'server/enip/logix.py', None ), ( 'server/enip/ucmm.py', None ), ( 'server/enip/device.py', None ),
+                     ( 'server/enip/parser.py', None ), ( 'automata.py', None ), ( 'server/enip/main.py', ( 'enip_srv', 'enip_srv_tcp', 'enip_srv_udp', 'stats_for' )),
+                     ( 'server/network.py', ( 'server_runner.run', 'recv', 'recvfrom', 'readable', 'writable' ))):
+        s = ctx.src( rel )
+        roots = [ s.tree ] if fns is None else [ s.get( f, required=False ) for f in fns ]
+        for r in roots:
+            if r is None:
+                continue
+            for c in ast.walk( r ):
+                if isinstance( c, ast.Call ):
+                    scanned += 1
+                    cn = call_name( c )
+                    if cn in FATAL_CALLS:
+                        # module-level `sys.exit( main() )` under `if __name__ == '__main__'` is not reachable from a connection
+                        if s.qualname_of( c ) == '<module>':
+                            continue
+                        hits += 1
+                        res.bad( s, c, c, 'a call that terminates the whole process is reachable from request processing' )
+    res.note( 'calls scanned for process termination: %d' % scanned )
+    if scanned < 2000:
+        raise AnalysisError( 'E-CONTAIN: only %d calls scanned' % scanned )
+    # positive fixture for the zero-count rule
+    fx = ast.parse( 'def f():\n    import sys\n    sys.exit( 1 )\n' )
+    if not any( isinstance( c, ast.Call ) and call_name( c ) in FATAL_CALLS for c in ast.walk( fx )):
+        raise AnalysisError( 'E-CONTAIN fixture did not match' )
+    if hits == 0:
+        res.ok( src, fn, 'no process-terminating call in the request-processing modules (%d calls scanned)' % scanned )
+    return res
